@@ -177,7 +177,7 @@ pub fn random_env(ctx: &Context, symbols: &[ExprRef], rng: &mut SplitMix) -> Env
 
 /// First node (bottom-up) at which patronus' evaluator disagrees with the reference when the
 /// reference values of its children are supplied. Returns signature tail and detail.
-fn localise(ctx: &mut Context, env: &Env, root: ExprRef) -> Option<(String, String)> {
+pub fn localise(ctx: &mut Context, env: &Env, root: ExprRef) -> Option<(String, String)> {
     let mut cache = FxHashMap::default();
     let _ = refeval::eval_cached(ctx, env, root, &mut cache).ok()?;
     for n in reachable(ctx, &[root]) {
